@@ -138,6 +138,10 @@ static void run_case(cs::Src& s, cs::Ctx& ctx) {
       gen::Spell sp;
       sp.strict = s.coin();  // dialect spellings too: single quotes, unquoted keys
       sp.ws = s.coin();
+      sp.comments = ARDUINOJSON_ENABLE_COMMENTS;
+#if ARDUINOJSON_ENABLE_COMMENTS
+      if (s.chance(1, 4)) stream += s.coin() ? "/* between documents */" : "// between documents\n";  // leading comments belong to the next call
+#endif
       std::string t;
       if (d.v.k == Val::Flt) {
         d.v.s = gen::gen_float_literal(s, 30);
